@@ -366,6 +366,71 @@ def parse_source_path(s):
     return file, segs
 
 
+def macro_instances(macro_src, macro_name, invoc_src):
+    """Mechanical expansion of a simple `macro_rules!` with ONE rule of the shape
+         ($($a:ty => $b:path),* $(,)?) => { $( ITEMS )* }
+    for every invocation `name!( x => y, ... );` found in invoc_src.  Returns (items_text, first_line_of_items, [(a, b), ...]).
+    Only textual substitution of the two metavariables, `$crate` and `stringify!($a)` is performed."""
+    msk = mask(macro_src)
+    m = re.search(r'macro_rules!\s+' + re.escape(macro_name) + r'\s*\{', msk)
+    if not m:
+        raise SliceError('macro %s not found' % macro_name)
+    body_open = m.end() - 1
+    body_close = match_close(msk, body_open)
+    body = macro_src[body_open + 1:body_close]
+    bm = mask(body)
+    arrow = bm.find('=>', bm.find(')'))
+    # the rule's pattern is the first parenthesised group; its metavariables:
+    pat_open = bm.find('(')
+    pat_close = match_close(bm, pat_open)
+    metas = re.findall(r'\$(\w+):\w+', body[pat_open:pat_close])
+    if len(metas) != 2:
+        raise SliceError('macro %s: unsupported rule shape (metavariables %r)' % (macro_name, metas))
+    exp_open = bm.find('{', pat_close)
+    exp_close = match_close(bm, exp_open)
+    rep = re.search(r'\$\(', bm[exp_open:exp_close])
+    if not rep:
+        raise SliceError('macro %s: no repetition in expansion' % macro_name)
+    r_open = exp_open + rep.end() - 1
+    r_close = match_close(bm, r_open)
+    items = body[r_open + 1:r_close]
+    first_line = macro_src.count('\n', 0, body_open + 1 + r_open + 1) + 1
+    pairs = []
+    im = mask(invoc_src)
+    for iv in re.finditer(r'\b' + re.escape(macro_name) + r'!\s*\(', im):
+        o = iv.end() - 1
+        c = match_close(im, o)
+        inner = invoc_src[o + 1:c]
+        depth = 0
+        cur = ''
+        parts = []
+        prev = ''
+        for ch in inner:
+            if ch in '<([':
+                depth += 1
+            elif ch in ')]' or (ch == '>' and prev != '='):
+                depth -= 1
+            prev = ch
+            if ch == ',' and depth == 0:
+                parts.append(cur)
+                cur = ''
+            else:
+                cur += ch
+        parts.append(cur)
+        for pt in parts:
+            if '=>' in pt:
+                a, b = pt.split('=>', 1)
+                pairs.append((norm(a), norm(b)))
+    return items, first_line, metas, pairs
+
+
+def instantiate(items, metas, pair):
+    t = items
+    t = t.replace('stringify!($%s)' % metas[0], '"%s"' % pair[0])
+    t = t.replace('$' + metas[0], pair[0]).replace('$' + metas[1], pair[1]).replace('$crate::', 'crate::')
+    return t
+
+
 class Weaver:
     def __init__(self, repo, verif=VERIF):
         self.repo = repo
@@ -403,6 +468,8 @@ class Weaver:
                     self._unit(None, 'verify', w, auto=(file, segs, k))
             elif s.startswith('//@consts '):
                 self._consts(s[len('//@consts '):].strip(), w)
+            elif s.startswith('//@verify-macro '):
+                self._macro_units(s[len('//@verify-macro '):].strip(), w)
             elif s.startswith('//@verify '):
                 self._unit(s[len('//@verify '):].strip(), 'verify', w)
             elif s.startswith('//@assume '):
@@ -411,6 +478,33 @@ class Weaver:
                 raise SliceError('%s: unknown directive %s' % (path, s))
             else:
                 w.emit(raw)
+
+    def _macro_units(self, unit, w):
+        """contract template contracts/<unit>.vspec with `macro <name> in <def file> invoked in <file>`; one woven unit per
+        macro invocation pair; `$T` / `$V` in the contract stand for the two metavariables"""
+        path = os.path.join(self.verif, 'contracts', unit + '.vspec')
+        raw = open(path).read()
+        mm = re.search(r'^macro (\w+) in (\S+) invoked in (\S+)\s*$', raw, re.M)
+        if not mm:
+            raise SliceError('%s: macro line missing' % unit)
+        name, deff, invf = mm.groups()
+        items, first_line, metas, pairs = macro_instances(self.src(deff).text, name, self.src(invf).text)
+        if not pairs:
+            raise SliceError('%s: no invocation of %s! found in %s' % (unit, name, invf))
+        for k, pair in enumerate(pairs):
+            text = instantiate(items, metas, pair)
+            syn = '%s#%s!#%d' % (deff, name, k)
+            S = Source(syn, text)
+            S.line_base = first_line - 1
+            self.sources[syn] = S
+            inst = raw.replace('$T', pair[0]).replace('$V', pair[1]).replace('$SRC', syn)
+            inst = re.sub(r'^macro [^\n]*\n', '', inst, flags=re.M)
+            inst = re.sub(r'^unit (\S+)', lambda m_: 'unit %s[%s]' % (m_.group(1), pair[0]), inst, flags=re.M)
+            tmp = os.path.join(self.verif, 'build', '.vspec-%s-%d' % (unit, k))
+            os.makedirs(os.path.dirname(tmp), exist_ok=True)
+            open(tmp, 'w').write(inst)
+            self._unit(None, 'verify', w, spec_path=tmp)
+            w.units[-1]['macro_instance'] = '%s!(%s => %s) expanded mechanically from %s (invoked in %s)' % (name, pair[0], pair[1], deff, invf)
 
     def _consts(self, file, w):
         S = self.src(file)
@@ -456,8 +550,11 @@ class Weaver:
                             rules=log, line_start=a, line_end=w.lineno))
 
     # ---------------------------------------------------------------------------------------
-    def _unit(self, unit, mode, w, auto=None):
-        if auto:
+    def _unit(self, unit, mode, w, auto=None, spec_path=None):
+        if spec_path:
+            spec = parse_vspec(spec_path)
+            unit = spec['unit']
+        elif auto:
             file, segs, k = auto
             unit = 'auto.%s' % segs[-1].split()[-1]
             spec = dict(unit=unit, source=file + ' :: ' + ' :: '.join(segs), props_safety=['C02'], props_internal=[], result='res', attrs=['#[verifier::exec_allows_no_decreases_clause]'],
@@ -702,24 +799,24 @@ class Weaver:
                 mt.replace(j, j, ' }')
                 mt.replace(b, b + lead, ' ' + txt + ' { ')
             log.append(('closure', 'closure %r: woven contract' % (key_,)))
-        # expand placeholders (remember where each proof aid ends up, relative to the body)
+        # expand placeholders; start/end markers (inline comments, no newlines) give each aid's final line span
         aid_spans = []
         for k in range(len(holders) - 1, -1, -1):
             ph = '/*@@W%d@@*/' % k
             i = mt.text.find(ph)
             if i < 0:
                 raise SliceError('%s: internal: placeholder %d lost' % (unit, k))
-            mt.replace(i, i + len(ph), holders[k], woven=True)
-        # second pass for positions: aids are unique texts in order; locate by scanning
-        pos = 0
+            mt.replace(i, i + len(ph), '/*@@S%d@@*/%s/*@@E%d@@*/' % (k, holders[k], k), woven=True)
         for k in range(len(holders)):
-            if not holders[k]:
-                continue
-            i = mt.text.find(holders[k], pos)
-            if i >= 0:
-                l0 = mt.text.count('\n', 0, i)
-                aid_spans.append((holder_ids[k], l0, l0 + holders[k].count('\n')))
-                pos = i + len(holders[k])
+            a_ = mt.text.find('/*@@S%d@@*/' % k)
+            b_ = mt.text.find('/*@@E%d@@*/' % k)
+            if a_ >= 0 and b_ >= 0 and holders[k]:
+                aid_spans.append((holder_ids[k], mt.text.count('\n', 0, a_), mt.text.count('\n', 0, b_)))
+        for k in range(len(holders)):
+            for mk in ('/*@@S%d@@*/' % k, '/*@@E%d@@*/' % k):
+                a_ = mt.text.find(mk)
+                if a_ >= 0:
+                    mt.replace(a_, a_ + len(mk), '', woven=True)
         # regions: attribute a failing exit to the properties of the arm it lies in
         regions = []
         for rg in spec['regions']:
